@@ -85,6 +85,7 @@ def o1_content_addressed(steps, cfg, history):
                 out.append((f"step {st['i']} {show_cmd(st['cmd'])}: object {rel} is writable (mode {oct(o['mode'])})", {'kind': 'object-writable'}))
             if o['dirmode'] & 0o222:
                 out.append((f"step {st['i']} {show_cmd(st['cmd'])}: directory of object {rel} is writable (mode {oct(o['dirmode'])})", {'kind': 'dir-writable'}))
+        out += address_under_recorded_mode(st)
         pre = st['pre']
         if pre is not None and gentle(st['cmd']) and st['rc'] in (0, 1):
             for rel, o in pre.cache.items():
@@ -104,6 +105,47 @@ def o1_content_addressed(steps, cfg, history):
     return out
 
 
+def mode_is_text(tob, b):
+    """the documented choice: text / binary as recorded; auto = text iff there is no NUL among the first 8000 bytes"""
+    return tob == 'text' or (tob == 'auto' and hashref.is_text(b))
+
+
+def address_under_recorded_mode(st):
+    """C02: "the cache path of an object is exactly the digest of its contents under the CONFIGURED algorithm and text-or-binary
+    mode".  The mode configured for a path is the one on record for it (file-text-or-binary store, replayed independently).
+    For the CURRENT version of every recorded path whose object is in the cache, after every command that ended normally: the
+    recorded digest is the digest (independent hashers) of the object's bytes without CR/LF when the recorded mode says text
+    (`text`, or `auto` and no NUL in the first 8000 bytes), of the raw bytes otherwise.  Not judged: paths without a recorded
+    mode or version, objects that are absent, and addresses that recorded paths with DIFFERENT modes share (region of the
+    open finding K1: contents that collide after CR/LF stripping)."""
+    out = []
+    post = st['post']
+    if post is None or st['rc'] not in (0, 1):
+        return out
+    by_addr = {}
+    for p, r in post.recs.items():
+        if r.get('cur'):
+            by_addr.setdefault(rec_addr(r, p), set()).add(r.get('tob'))
+    for p, r in post.recs.items():
+        if not r.get('cur') or r.get('tob') is None:
+            continue
+        rel = rec_addr(r, p)
+        o = post.cache.get(rel)
+        if not o or o['kind'] != 'file' or o['bytes'] is None or len(by_addr[rel]) > 1:
+            continue
+        b = o['bytes']
+        text = mode_is_text(r['tob'], b)
+        want = ref_digest(r['cur']['algorithm'], hashref.strip_crlf(b) if text else b)
+        have = ''.join(f'{x:02x}' for x in r['cur']['digest'])
+        if want != have:
+            other = ref_digest(r['cur']['algorithm'], b if text else hashref.strip_crlf(b))
+            out.append((f"step {st['i']} {show_cmd(st['cmd'])}: {p} is recorded in mode '{r['tob']}' ({'text' if text else 'binary'} for these bytes), but the object of "
+                        f"its current version, {rel}, is not at the digest of its {'bytes without CR/LF' if text else 'raw bytes'}"
+                        + (f" - it is at the digest of its {'raw bytes' if text else 'bytes without CR/LF'} (the other mode)" if other == have else ''),
+                        {'kind': 'address-not-under-recorded-mode', 'recorded': r['tob']}))
+    return out
+
+
 def o1r_recheck_restores(steps, cfg, history):
     """C01, first sentence, judged on the history itself: after a successful `recheck` a tracked target that was absent
     before the command (or any target, with --force) yields exactly the bytes of the cache object of its recorded digest"""
@@ -113,7 +155,7 @@ def o1r_recheck_restores(steps, cfg, history):
         pre, post = st['pre'], st['post']
         # a path recorded as a tracked file stays one unless it is untracked or moved away: a command that makes the record
         # vanish (e.g. by recording the file as "missing", seeded change C01-5) makes its committed versions unreachable for recheck
-        if pre is not None and post is not None and st['rc'] == 0 and c['op'] not in ('untrack', 'move', 'movem', 'write', 'delete', 'emptydir', 'link'):
+        if pre is not None and post is not None and st['rc'] == 0 and c['op'] not in ('untrack', 'move', 'movem', 'write', 'delete', 'emptydir', 'link', 'relink'):
             for t in pre.recs:
                 if t not in post.recs and pre.recs[t].get('cur'):
                     out.append((f"step {st['i']} {show_cmd(c)}: {t} was recorded as a tracked file with a committed version before the command and is not afterwards",
@@ -144,7 +186,7 @@ def o3_no_unsaved_loss(steps, cfg, history, include_failed=False):
     for st in steps:
         c = st['cmd']
         pre, post = st['pre'], st['post']
-        if pre is None or post is None or c['op'] in ('write', 'delete', 'remove', 'emptydir') or is_force(c) or (st['rc'] not in (0, 1) and not include_failed):
+        if pre is None or post is None or c['op'] in ('write', 'delete', 'remove', 'emptydir', 'relink') or is_force(c) or (st['rc'] not in (0, 1) and not include_failed):
             continue
         for p, k in pre.ws.items():
             b = read_through(pre, p)
@@ -337,7 +379,7 @@ def o6_method_sticks(steps, cfg, history):
         if pre is None or post is None:
             break
         op = c['op']
-        if op in ('write', 'delete', 'emptydir', 'link', 'carryin') and st['rc'] == 0:
+        if op in ('write', 'delete', 'emptydir', 'link', 'relink', 'carryin') and st['rc'] == 0:
             continue                      # carry-in re-materialises with the recorded method and records none
         touched = list(c.get('targets', [])) + [c[k] for k in ('src', 'dst') if c.get(k)]
         if st['rc'] != 0 or op not in ('recheck', 'track'):
@@ -788,6 +830,7 @@ def parse_model_line(line):
     if t[0] == 'emptydir': return {'op': 'emptydir', 'path': t[1]}
     if t[0] == 'write': return {'op': 'write', 'path': t[1], 'bytes': bytes.fromhex(t[2]), 'cname': 'c'}
     if t[0] == 'delete': return {'op': 'delete', 'path': t[1]}
+    if t[0] == 'relink': return {'op': 'relink', 'path': t[1], 'kind': t[2], 'n': int(t[3])}
     if t[0] == 'track': return {'op': 'track', 'method': n(t[1]), 'tob': n(t[2]), 'no_commit': t[3] == '1', 'force': t[4] == '1', 'targets': t[5:]}
     if t[0] == 'carryin': return {'op': 'carryin', 'tob': n(t[1]), 'force': t[2] == '1', 'targets': t[3:]}
     if t[0] == 'recheck': return {'op': 'recheck', 'method': n(t[1]), 'force': t[2] == '1', 'targets': t[3:]}
